@@ -34,6 +34,8 @@ def main():
         out = p.stdout + p.stderr
         vl = [l for l in out.split('\n') if l.startswith('VIOLATION')]
         meta['repo_route'] = {'exit': p.returncode, 'violations': len(vl), 'first': [l[:300] for l in vl[:2]],
+                              'deciders': sorted(set(('pyvc' if '.py::' in l or 'table:' in l or 'lemma:' in l
+                                                      else 'bounded') for l in vl)),
                               'wall_s': round(time.time() - t0, 1),
                               'how': 'git -C /repo apply patch.diff; ./check %s --tier quick; '
                                      'git -C /repo checkout -- .' % prop}
